@@ -69,6 +69,20 @@ pub fn eval_chunk(text: &[u8]) -> R<LV> {
     Ok(v)
 }
 
+/// evaluate the `return <exp>` that starts at byte `start` of a larger text (what follows the
+/// expression is not looked at): used on the body of `__modImpl` inside a bundle
+pub fn eval_return_at(text: &[u8], start: usize) -> R<LV> {
+    let mut p = Lua { s: text, i: start };
+    // the (empty) parameter list, wherever the generator broke the line
+    p.expect(b'(')?;
+    p.expect(b')')?;
+    p.ws();
+    if !p.keyword(b"return") {
+        return Err("syntax: function body does not start with return".into());
+    }
+    p.exp()
+}
+
 fn is_name_start(c: u8) -> bool {
     c.is_ascii_alphabetic() || c == b'_'
 }
